@@ -20,3 +20,17 @@ claim("C01", "generated-input search: typed grammar-directed expression generato
       "Trusts the reference evaluator pbt/oracles/feel.py; cases the DMN text does not decide are generated but only checked for scope "
       "invariance (counted as 'unspecified'). Open findings are tolerated only when the reference with exactly that deviation switched "
       "on predicts the SUT's value.")
+
+claim("C13", "generated-input search over evaluation histories (op sequences + interpreter) with invariants checked after every step",
+      "Exploration: generated histories of 5-40 evaluate/parse steps over 2-5 prepared expressions and 2-4 scopes of different stack shape "
+      "(and, for models, histories of invocations); after every step every scope must render byte-identically to its initial rendering, "
+      "recurring (expression, scope) pairs must give the same value, successful parses must leave the scope unchanged.",
+      "Trusts Scope::to_string() to render the whole stack. Failed parses (outside the statement) may leave entries behind; the scope is "
+      "re-baselined there and the rest of the history is still judged.")
+
+claim("C10", "generated-input search: name-set generator with prefix families and operator-joined combinations; oracle = longest-bound-match rule + reference evaluator over primes",
+      "Exploration: tens of thousands of (name set, expression template, spelling) triples; every bound name is a distinct prime so the "
+      "result identifies which names were resolved; expected value computed from the statement's longest-match rule.",
+      "Names are bound through public constructors (never through the lexer). Declaration sites (context keys, parameters) whose name has a "
+      "bound prefix, and texts where the longest bound name ends inside an intended operand, are generated but not asserted (the "
+      "statement does not decide them); counted in evidence classes.")
